@@ -738,9 +738,16 @@ def binary_level(ctx, exe):
             for k in rng.sample(range(1, len(data)), 6):
                 jobs.append((len(sessions) - 1, [k]))
     ncorpus = len(sessions)
+    frame_cuts = {}
     for t in TEXTS:
-        data = b"".join(lspclient.frame(m) for m in lsp_session(t))
+        frames = [lspclient.frame(m) for m in lsp_session(t)]
+        data = b"".join(frames)
         sessions.append((t, data))
+        cuts, pos = [], 0
+        for f in frames[:-1]:
+            pos += len(f)
+            cuts.append(pos)
+        frame_cuts[len(sessions) - 1] = cuts
     for si, (t, data) in enumerate(sessions):
         if si < ncorpus:
             continue
@@ -774,6 +781,27 @@ def binary_level(ctx, exe):
         if bases[-1] is not None:
             frames_checked += len(bases[-1]["msgs"])
             nonascii_frames += sum(1 for m in bases[-1]["msgs"] if any(ord(ch) > 127 for ch in json.dumps(m, ensure_ascii=False)))
+
+    # the reference chunking: one message per write, with a pause in between (what a lock-step client does);
+    # a single write of the whole session must be indistinguishable from it
+    for si, cuts in frame_cuts.items():
+        if bases[si] is None:
+            continue
+        ref = observe(exe, sessions[si][1], cuts, timeout=15.0, delay=0.05)
+        runs += 1
+        if same(ref, bases[si]):
+            continue
+        again = [(observe(exe, sessions[si][1], cuts, timeout=15.0, delay=0.1), observe(exe, sessions[si][1], [], timeout=15.0))
+                 for _ in range(3)]
+        runs += 6
+        if all(not same(a, b) for a, b in again):
+            a, b = again[0]
+            fails.append(dict(what="responses differ between one write per message and a single write of the whole session",
+                              session_text=sessions[si][0], input=sessions[si][1].decode("utf-8"), cuts=cuts,
+                              unsegmented=dict(messages=b["msgs"], exit_code=b["code"], eof=b["eof"]),
+                              segmented=dict(messages=a["msgs"], exit_code=a["code"], eof=a["eof"]), problems=[]))
+        else:
+            unconfirmed += 1
 
     def one(job):
         si, cuts = job
